@@ -3,6 +3,7 @@ package flow
 import (
 	"go/token"
 	"go/types"
+	"sync"
 
 	"golang.org/x/tools/go/ssa"
 )
@@ -90,6 +91,25 @@ func offsetFrom(v ssa.Value, base ssa.Value, depth int) (int64, bool) {
 
 // CountedLoops finds the loops of fn that provably visit every index of a sequence once, ascending.
 func CountedLoops(fn *ssa.Function) []*CountedLoop {
+	loopMu.Lock()
+	if ls, ok := loopMemo[fn]; ok {
+		loopMu.Unlock()
+		return ls
+	}
+	loopMu.Unlock()
+	out := countedLoops(fn)
+	loopMu.Lock()
+	loopMemo[fn] = out
+	loopMu.Unlock()
+	return out
+}
+
+var (
+	loopMu   sync.Mutex
+	loopMemo = map[*ssa.Function][]*CountedLoop{}
+)
+
+func countedLoops(fn *ssa.Function) []*CountedLoop {
 	var out []*CountedLoop
 	g := G(fn)
 	for _, H := range fn.Blocks {
@@ -315,7 +335,6 @@ func sameLoaded(a, b ssa.Value) bool {
 	lb, ok2 := b.(*ssa.UnOp)
 	return ok1 && ok2 && la.Op == token.MUL && lb.Op == token.MUL && la.X == lb.X
 }
-
 
 // onlyStore: the single whole-value store into a local, or nil.
 func onlyStore(al *ssa.Alloc) *ssa.Store {
